@@ -358,7 +358,7 @@ def eval_agg(ck, hs, ok):
             ck.broken.append("C02 aggregate canary: a corrupted aggregate observation was not reported by the file-cursor model "
                              "evaluation (read back: %s)" % (o[-300:] if tups is None else sorted(tups)[:NCAN]))
             return None
-    elif sum(c for _, c, _ in meta) > 0:
+    elif sum(c for _, c, _ in meta) > 0 and not getattr(ck, "replay", None):
         ck.broken.append("C02 aggregate canary: no history without an oracle failure to build the corrupted observation from")
         return None
     bad = {}
@@ -477,7 +477,7 @@ def eval_side(ck, hs, ok, which):
             ck.broken.append("C02 %s canary: a corrupted observation was not reported by the model evaluation (read back: %s)" % (
                 which, o[-300:] if tups is None else sorted(tups)[:NCAN]))
             return None
-    elif total_sent > 0:
+    elif total_sent > 0 and not getattr(ck, "replay", None):
         ck.broken.append("C02 %s canary: no usable observation in a history without an oracle failure" % which)
         return None
     bad, total = {}, 0
@@ -552,7 +552,7 @@ def eval_model(ck, hs, ok):
         if tups is None or {t[0] for t in tups} != set(range(NCAN)) or {t[2] for t in tups} != {6}:
             ck.broken.append("C02 canary: a corrupted shaped read was not reported with code 6 by the model evaluation (read back: %s)" % (
                 o[-300:] if tups is None else sorted(tups)[:NCAN]))
-    elif nreads > 0:
+    elif nreads > 0 and not getattr(ck, "replay", None):
         ck.broken.append("C02 canary: no history without an oracle failure to build the corrupted shaped read from")
     if canary is not None:
         rc, o = outs.pop()
